@@ -33,7 +33,10 @@ std::string lines_diff(const std::vector<std::string> &x, const std::vector<std:
     return "";
 }
 
-void reopen_point(Ctx &c, Graph &g, const std::string &after) {
+// a handle the application obtained earlier and kept: what it shows before the close is part of "what was observable before closing"
+struct Held { std::string kind; std::function<ONode(Observer &)> view; std::function<bool()> valid; };
+
+void reopen_point(Ctx &c, Graph &g, const std::string &after, std::vector<Held> &held) {
     // unobserved: the writing session closes without having looked at its own content (the pre-close snapshot calls every getter, which would hide
     // state that only a getter brings into existence); then what a ReadOnly session reads must be what a ReadWrite session reads
     bool unobserved = c.rng.chance(0.25); if (unobserved) c.count("unobserved_closes");
@@ -42,6 +45,10 @@ void reopen_point(Ctx &c, Graph &g, const std::string &after) {
     std::vector<Block> hb; std::vector<DataArray> ha; std::vector<Section> hs;
     auto grab = [&] { if (!c.rng.chance(0.5)) return; try { Block b; if (g.anyBlock(b)) { hb.push_back(b); DataArray a; if (g.anyArray(b, a)) ha.push_back(a); } Section s; if (g.anySection(s)) hs.push_back(s); } catch (...) {} };
     grab();
+    // the views through long-kept handles, taken before the close; compared below with the node of the same id after the reopen
+    std::vector<std::pair<std::string, ONode>> held_views;
+    if (!unobserved) for (auto &h : held) { try { if (!h.valid()) continue; Observer oh; ONode v = h.view(oh); if (!v.id.empty() && find_node(t0, v.id)) held_views.emplace_back(h.kind, v); } catch (std::exception &) {} }
+    held.clear();
     c.op("close | after " + after + ", " + str(nodes) + " nodes, live handles " + str(hb.size() + ha.size() + hs.size()));
     g.close();
     advance_clock(2 + (long)c.rng.u(5));   // the next session starts seconds later: a timestamp that is re-stamped on open becomes visible
@@ -58,6 +65,8 @@ void reopen_point(Ctx &c, Graph &g, const std::string &after) {
         std::string d = tree_diff(t0, t1);
         c.check(d.empty(), std::string("C02/tree-changed/") + mn, [&] { return d + "\n(" + str(nodes) + " nodes, last operation before close: " + after + ")"; });
         c.count("reopen_comparisons"); c.count("nodes_compared", (long)nodes); c.count("getters_called", o2.getters);
+        for (auto &hv : held_views) { const ONode *n1 = find_node(t1, hv.second.id); std::string dh = n1 ? tree_diff(hv.second, *n1) : std::string("entity " + hv.second.id + " shown by the kept handle is absent after the reopen");
+            c.check(dh.empty(), "C02/kept-handle-view/" + hv.first + "/" + mn, [&] { return dh + "\n(before = what a " + hv.first + " handle obtained earlier in the session showed right before close, after = the reopened file; last operation before close: " + after + ")"; }); c.count("kept_handle_views_compared"); }
         if (m == FileMode::ReadOnly) { grab(); g.close(); }   // handles of the read-only session may outlive it as well
     }
     if (c.rng.chance(0.25)) {   // a second process must see the same tree (the writer holds the file open read-write: close first)
@@ -74,16 +83,29 @@ void run_case(Ctx &c) {
     int nops = (int)c.rng.range(30, 60); std::string last = "create";
     // long-lived handles, as an application keeps them: while one is open HDF5 serves that object from its caches, so what the session reads
     // is not necessarily what reached the file (released at the next reopen point, after the snapshot)
-    std::vector<Property> long_props; std::vector<DataArray> long_arrays;
+    std::vector<Property> long_props; std::vector<DataArray> long_arrays; std::vector<Held> held;
+    auto keep = [&] {   // obtain a handle now, look at everything it shows (whatever an implementation remembers per handle is now remembered), keep it
+        try { Block b; if (!g.anyBlock(b)) return; Held h; int k = (int)c.rng.u(8);
+            if (k == 0) { DataArray a; if (!g.anyArray(b, a)) return; h.kind = "data_array"; h.view = [a](Observer &o) { return o.array(a); }; h.valid = [a] { return a.isValidEntity(); }; }
+            else if (k == 1) { Tag t; if (!g.anyTag(b, t)) return; h.kind = "tag"; h.view = [t](Observer &o) { return o.tag(t); }; h.valid = [t] { return t.isValidEntity(); }; }
+            else if (k == 2) { MultiTag t; if (!g.anyMTag(b, t)) return; h.kind = "multi_tag"; h.view = [t](Observer &o) { return o.mtag(t); }; h.valid = [t] { return t.isValidEntity(); }; }
+            else if (k == 3) { Source t; if (!g.anySource(b, t)) return; h.kind = "source"; h.view = [t](Observer &o) { return o.source(t); }; h.valid = [t] { return t.isValidEntity(); }; }
+            else if (k == 4) { Group t; if (!g.anyGroup(b, t)) return; h.kind = "group"; h.view = [t](Observer &o) { return o.group(t); }; h.valid = [t] { return t.isValidEntity(); }; }
+            else if (k == 5) { DataFrame t; if (!g.anyFrame(b, t)) return; h.kind = "data_frame"; h.view = [t](Observer &o) { return o.frame(t); }; h.valid = [t] { return t.isValidEntity(); }; }
+            else if (k == 6) { Section t; if (!g.anySection(t)) return; h.kind = "section"; h.view = [t](Observer &o) { return o.section(t); }; h.valid = [t] { return t.isValidEntity(); }; }
+            else { h.kind = "block"; h.view = [b](Observer &o) { return o.block(b); }; h.valid = [b] { return b.isValidEntity(); }; }
+            Observer o; (void)h.view(o); if (held.size() < 12) held.push_back(h); c.count("kept_handles");
+        } catch (std::exception &) {} };
     for (int i = 0; i < nops; i++) {
+        if (c.rng.chance(0.25)) keep();
         if (c.rng.chance(0.3)) { try { Section s; if (g.anySection(s) && s.propertyCount()) long_props.push_back(s.getProperty(c.rng.u(s.propertyCount()))); Block b; DataArray a; if (c.rng.chance(0.5) && g.anyBlock(b) && g.anyArray(b, a)) long_arrays.push_back(a); c.count("long_lived_handles");
             if (!long_props.empty() && c.rng.chance(0.6)) { Property lp = c.rng.pick(long_props); if (lp.isValidEntity()) { c.op("values through a long-lived property handle"); lp.values(g.gen_values(lp.dataType(), 2 + c.rng.u(4))); } } } catch (...) {} }
         g.step();
         last = c.trace_head.empty() ? "?" : (c.nops <= (long)c.trace_head.size() ? c.trace_head.back() : "op" + str(c.nops));
         if (c.rng.chance(0.06)) { c.op("flush"); g.f.flush(); }
-        if (c.rng.chance(0.08)) { reopen_point(c, g, last); long_props.clear(); long_arrays.clear(); }
+        if (c.rng.chance(0.08)) { reopen_point(c, g, last, held); long_props.clear(); long_arrays.clear(); }
     }
-    reopen_point(c, g, last); long_props.clear(); long_arrays.clear();
+    reopen_point(c, g, last, held); long_props.clear(); long_arrays.clear();
     c.nontrivial = c.nops > 20;
     g.close();
 }
